@@ -76,6 +76,10 @@ def systems(tier):
     rwx2 = dict(resname="S", start=2, stop=4, normal=(1.0, 0.0, 0.0), angle=95.0)
     out.append(dict(types=["CH6"], molecules=[("CH6", 1)], box=BOX, grid=[[0.75, 2.0, 0.75]] + GRID, rw=[rwx2, rwz], kwargs=dict(nrewind=3, maxiter=4)))
     out.append(dict(types=["CH6"], molecules=[("CH6", 1)], box=BOX, grid=[[0.75, 2.0, 0.75]] + GRID, rw=[rwz, rwx2], kwargs=dict(nrewind=3, maxiter=4)))
+    # a forbidden sphere lying against a box face, the chain started next to the opposite face: a step through the face lands
+    # (wrapped) inside the sphere
+    out.append(dict(types=["CH5"], molecules=[("CH5", 1)], box=BOX, grid=[[3.75, 2.0, 2.0], [3.75, 2.5, 2.0]] + GRID, kwargs=dict(nrewind=3, maxiter=4),
+                    geos=[dict(kind="sphere", resname="S", start=1, stop=6, inout="out", centre=(0.25, 2.0, 2.0), params=(0.6,))]))
     # normals that are not unit vectors with a cone that binds (body diagonals lie 54.7 degrees from an axis, face diagonals
     # 45 / 60 / 90 degrees from another face diagonal)
     out.append(dict(types=["CH5"], molecules=[("CH5", 1)], box=BOX, grid=[[2.0, 2.0, 0.75]] + GRID, bundle="axis+diag14", kwargs=dict(nrewind=3, maxiter=4),
